@@ -144,6 +144,7 @@ func init() {
 			ruleLALR4(c)
 			ruleLALR5(c)
 			ruleLALR6(c)
+			ruleLALR6skips(c, "LALR-6")
 			ruleLALR7(c)
 			ruleNUM8(c, "NUM-8")
 			ruleFMT5(c)
@@ -170,6 +171,7 @@ func init() {
 			ruleLALR4(c)
 			ruleLALR5(c)
 			ruleLALR6(c)
+			ruleLALR6skips(c, "LALR-6")
 			ruleLALR7(c)
 			ruleNUM8(c, "NUM-8")
 			ruleCFL1(c)
@@ -218,6 +220,7 @@ func init() {
 			ruleMODE3(c)
 			ruleMODE4(c)
 			ruleFMT3(c)
+			ruleLEX6(c) // a rule's actions run only if its accepting state is not merged into another rule's
 		},
 		Thorough: func(c *Ctx) {
 			onInstances(c, func(c *Ctx) {
